@@ -1,7 +1,7 @@
 (** C17 proofs, matrix level: uniqueness of the least-squares fit, its transport along an
     invertible affine re-expression of the regressors, and the resulting (in)variance of
     [LinearAdjustment._adjust].  Model: Num/AdjustMx.v. *)
-From mathcomp Require Import all_ssreflect all_algebra.
+From mathcomp Require Import all_ssreflect all_fingroup all_algebra.
 From Elfi Require Import Num.AdjustMx.
 Set Implicit Arguments.
 Unset Strict Implicit.
@@ -100,6 +100,33 @@ rewrite regressors_affine => uG uA H H'.
 have E : regressors S o *m A = regressors S o *m A + ones F n *m 0 by rewrite mulmx0 addr0.
 rewrite E in H' *.
 by rewrite (adjust_affine_shift uG uA H H') mul0mx mul0mx mulmx0 subr0.
+Qed.
+
+(** listing the summaries in another order = permuting the columns of the simulated and of the
+    observed summaries alike: a special invertible linear re-expression (A = permutation matrix, c = 0) *)
+Lemma invmx_perm (s : 'S_k) : invmx (perm_mx s^-1) = perm_mx s :> 'M[F]_k.
+Proof.
+by rewrite -[RHS](mulKmx (unitmx_perm F s^-1)) -perm_mxM mulVg perm_mx1 mulmx1.
+Qed.
+
+(** the fit of the re-listed design is the re-listed fit (same intercept, slope entries permuted alike) *)
+Lemma fit_summary_perm (s : 'S_k) X theta (b0 : 'M[F]_1) b :
+  is_fit X theta b0 b -> is_fit (col_perm s X) theta b0 (row_perm s b).
+Proof.
+move=> H; have := fit_transport 0 (unitmx_perm F s^-1) H.
+by rewrite mulmx0 addr0 !mul0mx subr0 -col_permE invmx_perm -row_permE.
+Qed.
+
+Theorem adjust_summary_perm (s : 'S_k) S o theta (b0 : 'M[F]_1) b (b0' : 'M[F]_1) (b' : 'cV[F]_k) :
+  gram (design (regressors S o)) \in unitmx ->
+  is_fit (regressors S o) theta b0 b ->
+  is_fit (regressors (col_perm s S) (col_perm s o)) theta b0' b' ->
+  adjusted theta (regressors (col_perm s S) (col_perm s o)) b' = adjusted theta (regressors S o) b.
+Proof.
+move=> uG H.
+have -> : col_perm s S = S *m perm_mx s^-1 + ones F n *m 0 by rewrite mulmx0 addr0 col_permE.
+have -> : col_perm s o = o *m perm_mx s^-1 + 0 by rewrite addr0 col_permE.
+move=> H'; exact: (adjust_affine_invariant uG (unitmx_perm F s^-1) H H').
 Qed.
 
 Lemma adjusted_row0 theta X b i : row i X = 0 -> adjusted theta X b i 0 = theta i 0.
